@@ -129,9 +129,17 @@ def render(payload, obs):
         cases.append(f'CParse {cobj(spec)} {cres(first, ctriple)} {cres(again, ctriple)}')
         meta.append({'kind': 'parse', 'input': spec, 'impl': {'first': first, 'again': again}})
     for (a, b), o in zip(payload['pairs'], obs['pairs']):
+        if isinstance(o, dict):       # a member the model parses was rejected by the implementation: a parse case
+            cases.append(f'CParse {cobj(o["spec"])} {cres({"err": o["err"]}, ctriple)} {cres({"err": o["err"]}, ctriple)}')
+            meta.append({'kind': 'parse', 'input': o['spec'], 'impl': {'first': {'err': o['err']}, 'again': {'err': o['err']}}})
+            continue
         cases.append(f'CPair {cobj(a)} {cobj(b)} {cbool(o[0])} {cbool(o[1])} {cbool(o[2])} {cbool(o[3])}')
         meta.append({'kind': 'pair', 'input': [a, b], 'impl': {'eq': o[0], 'a<b': o[1], 'b<a': o[2], 'hash_eq': o[3]}})
     for s, o in zip(payload['sorts'], obs['sorts']):
+        if 'err' in o:
+            cases.append(f'CParse {cobj(o["spec"])} {cres({"err": o["err"]}, ctriple)} {cres({"err": o["err"]}, ctriple)}')
+            meta.append({'kind': 'parse', 'input': o['spec'], 'impl': {'first': {'err': o['err']}, 'again': {'err': o['err']}}})
+            continue
         probes = clist([ctuple([cstr(x), cnat(bl), copt(io, cnat)]) for x, bl, io in o['probes']])
         cases.append(f'CSort {clist([cstr(x) for x in s["l"]])} {clist([cstr(x) for x in o["sorted"]])} '
                      f'{clist([cstr(x) for x in o["unique"]])} {probes}')
